@@ -115,4 +115,24 @@ theorem broadcast_targets (E : Env) (hst : HSt) (k : Nat) (ms : List Member) (c 
   · simp at h1
   · simp at h2; exact ⟨h1, h2.1, h2.2⟩
 
+/-- `broadcast()` stops as soon as the backlog is drained: when the datagram to `d` used up the last
+    transmission of the last item, the remaining chosen members get nothing. -/
+theorem broadcast_stops_when_drained (E : Env) (d : Id) (rest : List Id) (c c1 : Ctx)
+    (h : sendMessage E d .broadcast c = .ok () c1) (hempty : c1.s.custom = []) :
+    broadcastLoop E (d :: rest) c = .ok () c1 := by
+  unfold broadcastLoop
+  simp [bind_run, h, hempty]
+
+/-- … and goes on to the next chosen member while something is left -/
+theorem broadcast_continues_while_pending (E : Env) (d : Id) (rest : List Id) (c c1 : Ctx)
+    (h : sendMessage E d .broadcast c = .ok () c1) (hleft : c1.s.custom ≠ []) :
+    broadcastLoop E (d :: rest) c = broadcastLoop E rest c1 := by
+  unfold broadcastLoop
+  have : (c1.s.custom.length == 0) = false := by
+    cases hc : c1.s.custom with
+    | nil => exact absurd hc hleft
+    | cons x xs => simp
+  simp only [bind_run, h, getS_run, this, Bool.false_eq_true, if_false]
+  cases rest <;> rfl
+
 end Foca.C16
